@@ -505,12 +505,13 @@ fn gen_c16(tier: &str, r: &Rng, o: &mut Out<'_>) {
     for k in 0..n {
         let mut b = vec![r.byte(), r.byte()];
         let pd = rand_desc_loop(r, 3);
-        let pil = match r.below(8) { 0 => pd.len() + 1, 1 => pd.len().saturating_sub(1), 2 => 4095, _ => pd.len() };
+        // every bit of the 12-bit length fields is exercised (high bits set with a small low part)
+        let pil = match r.below(10) { 0 => pd.len() + 1, 1 => pd.len().saturating_sub(1), 2 => 4095, 3 => (pd.len() & 0x3ff) | 0x400, 4 => (pd.len() & 0x3ff) | 0x800, 5 => (pd.len() & 0xff) | 0x100 << r.below(4), _ => pd.len() };
         b.push(((pil >> 8) as u8 & 0x0f) | (r.byte() & 0xf0)); b.push(pil as u8);
         b.extend(&pd);
         for _ in 0..r.below(5) {
             let ed = rand_desc_loop(r, 3);
-            let esil = match r.below(10) { 0 => ed.len() + 1, 1 => ed.len().saturating_sub(1), 2 => 4095, _ => ed.len() };
+            let esil = match r.below(12) { 0 => ed.len() + 1, 1 => ed.len().saturating_sub(1), 2 => 4095, 3 => (ed.len() & 0x3ff) | 0x400, 4 => (ed.len() & 0x3ff) | 0x800, 5 => (ed.len() & 0xff) | 0x100 << r.below(4), _ => ed.len() };
             b.push(r.byte());
             let pid = match r.below(4) { 0 => 0x1fff, 1 => 0, _ => r.below(0x2000) as u16 };
             b.push((r.byte() & 0xe0) | (pid >> 8) as u8); b.push(pid as u8);
@@ -519,6 +520,28 @@ fn gen_c16(tier: &str, r: &Rng, o: &mut Out<'_>) {
         }
         match r.below(6) { 0 => { b.extend(r.bytes(1 + r.below(4) as usize)); } 1 => { let l = r.below(b.len() as u64 + 1) as usize; b.truncate(l); } _ => {} }
         if k < 8 { b.truncate(k); }
+        o.d(&format!("pmt {}", hex(&b)));
+    }
+    // long descriptor loops: program_info_length / ES_info_length above 255, 1023 and 2047 that FIT
+    for k in 0..(if thorough { 400 } else { 40 }) {
+        let want = [256usize, 300, 1023, 1024, 1025, 1500, 2047, 2048, 2049, 3000, 4095][k % 11];
+        let mut pd = vec![];
+        while pd.len() + 257 <= want { pd.push(0x80); pd.push(255); pd.extend(r.bytes(255)); }
+        let rem = want - pd.len();
+        if rem >= 2 { pd.push(0x81); pd.push((rem - 2) as u8); pd.extend(r.bytes(rem - 2)); } else { pd.extend(r.bytes(rem)); }
+        let on_stream = k % 2 == 1;
+        let mut b = vec![r.byte(), r.byte()];
+        if on_stream {
+            b.push(0xf0); b.push(0);
+            b.extend_from_slice(&[0x1b, 0xe1, 0x00, 0xf0 | (want >> 8) as u8 & 0x0f, want as u8]);
+            b.extend(&pd);
+            b.extend_from_slice(&[0x0f, 0xe1, 0x01, 0xf0, 0x00]);
+        } else {
+            b.push(0xf0 | (want >> 8) as u8 & 0x0f); b.push(want as u8);
+            b.extend(&pd);
+            b.extend_from_slice(&[0x1b, 0xe1, 0x00, 0xf0, 0x00]);
+        }
+        if k % 5 == 4 { let l = b.len(); b.truncate(l - 1 - r.below(6) as usize); }
         o.d(&format!("pmt {}", hex(&b)));
     }
     // every body length 0..=40 with boundary-valued length fields
